@@ -209,8 +209,11 @@ public:
 
 		// can't std::forward<Args>(args) in GetEvent::getEvent because the pass by value arguments will be moved to getEvent
 		// then the other std::forward<Args>(args) to directDispatch will get empty values.
+		// The event must also be obtained in its own statement: inside one argument list the evaluation
+		// order is unspecified and a pass by value argument may already be moved into directDispatch.
+		const Event event = GetEvent::getEvent(args...);
 		directDispatch(
-			GetEvent::getEvent(args...),
+			event,
 			std::forward<Args>(args)...
 		);
 	}
@@ -222,8 +225,9 @@ public:
 
 		using GetEvent = typename SelectGetEvent<Policies_, EventType_, HasFunctionGetEvent<Policies_, T &&, Args...>::value>::Type;
 
+		const Event event = GetEvent::getEvent(std::forward<T>(first), args...);
 		directDispatch(
-			GetEvent::getEvent(std::forward<T>(first), args...),
+			event,
 			std::forward<Args>(args)...
 		);
 	}
